@@ -17,12 +17,14 @@ import (
 	"github.com/thushan/olla/internal/core/ports"
 	"github.com/thushan/olla/internal/logger"
 	"github.com/thushan/olla/internal/router"
+	"github.com/thushan/olla/internal/util"
 )
 
 // SecurityAdapters provides middleware for security chain
 type SecurityAdapters struct {
 	securityChain *ports.SecurityChain
 	logger        logger.StyledLogger
+	rateLimits    config.ServerRateLimits
 }
 
 // CreateChainMiddleware creates middleware that applies the full security chain with enhanced logging
@@ -36,7 +38,9 @@ func (s *SecurityAdapters) CreateChainMiddleware() func(http.Handler) http.Handl
 			if s.securityChain != nil {
 				// Create security request from HTTP request
 				secReq := ports.SecurityRequest{
-					ClientID:      r.RemoteAddr, // This would normally be extracted better
+					// the client's IP, not RemoteAddr: RemoteAddr carries the ephemeral source port, which
+					// would give every TCP connection of a client its own rate-limit bucket
+					ClientID:      util.GetClientIP(r, s.rateLimits.TrustProxyHeaders, s.rateLimits.TrustedProxyCIDRsParsed),
 					Endpoint:      r.URL.Path,
 					Method:        r.Method,
 					BodySize:      r.ContentLength,
@@ -127,6 +131,7 @@ func NewApplication(
 	securityAdapters := &SecurityAdapters{
 		securityChain: securityChain,
 		logger:        logger,
+		rateLimits:    cfg.Server.RateLimits,
 	}
 
 	// Create route registry
